@@ -17,6 +17,9 @@ pub const DRIFT_F32: f64 = 5e-4;
 /// weighted_sum / predict against the harness' own sum: relative to S(x) = sum_j |a_j K(x_j,x)|.
 pub const DEC_REL_F64: f64 = 1e-10;
 pub const DEC_REL_F32: f64 = 2e-4;
+/// Absolute floor per unit of sum |a_j| (kernel values that underflow in the model's float type).
+pub const UNDERFLOW_F32: f64 = 1e-37;
+pub const UNDERFLOW_F64: f64 = 1e-300;
 /// Equality constraint sum a_i = c: relative to sum |a_i| (+ the largest box bound).
 pub const EQ_REL_F64: f64 = 1e-9;
 pub const EQ_REL_F32: f64 = 1e-3;
@@ -59,6 +62,18 @@ fn dual_sum(case: &Case, alpha: &[f64], x: &[f64], sv_thr: f64) -> (f64, f64, f6
         }
     }
     (s, abs, dropped)
+}
+
+/// Signature of an oracle branch. Once `do_shrinking` has run (`shrunk`), the obligations are grouped
+/// (`shrink:kkt`, `shrink:feasible`, `shrink:decision`, ...): the shrinking code has several
+/// interacting defects whose symptoms cannot be told apart from the published solution, and these
+/// signatures must never mask an obligation of the plain solver.
+fn mk_sig(shrunk: bool, s: &str) -> String {
+    if shrunk {
+        format!("shrink:{}", s.split(':').next().unwrap_or(s))
+    } else {
+        s.to_string()
+    }
 }
 
 struct Display {
@@ -118,14 +133,11 @@ fn classify(case: &Case, obs: &mut Obs) {
 /// `shrink:` so that findings of the shrinking code path never mask the plain solver's obligations.
 pub fn check(case: &Case, obs: &mut Obs) {
     classify(case, obs);
-    let pfx = if case.shrinking { "shrink:" } else { "" };
-    let sig = |s: &str| format!("{pfx}{s}");
-
     let ex = match run::fit(case) {
         FitOutcome::Model(e) => e,
         FitOutcome::Error(e) => {
             // the generator only produces valid hyper-parameters; the plain fits have no error path
-            obs.fail(sig("fit:unexpected-error"), format!("fit returned Err({e})"));
+            obs.fail(mk_sig(case.shrinking, "fit:unexpected-error"), format!("fit returned Err({e})"));
             return;
         }
         FitOutcome::Panic(m) => {
@@ -135,20 +147,26 @@ pub fn check(case: &Case, obs: &mut Obs) {
                     "shrink:panic:do_shrinking-nactive-underflow",
                     format!("fit with shrinking(true) panicked: {m}"),
                 );
+            } else if case.shrinking {
+                obs.fail("shrink:panic:fit-or-predict", format!("panicked: {m}"));
             } else {
-                obs.fail(sig("panic:fit-or-predict"), format!("panicked: {m}"));
+                obs.fail("panic:fit-or-predict", format!("panicked: {m}"));
             }
             return;
         }
     };
-    judge(case, &ex, obs, pfx);
+    // `do_shrinking` is first called in the loop pass number min(#variables, 1000) + 1; before that the
+    // shrinking flag has no effect and the plain solver's signatures apply unchanged
+    let iterations = parse_display(&ex.display).and_then(|d| d.iterations);
+    let shrunk = case.shrinking && iterations.map(|it| it >= case.nvars().min(1000) as u64).unwrap_or(true);
+    judge(case, &ex, obs, shrunk);
 
     // Platt-calibrated variant of the same problem
     if let Some(out) = run::fit_platt(case) {
         match out {
             FitOutcome::Model(pe) => {
                 obs.class("platt_fitted");
-                judge_platt(case, &ex, &pe, obs, pfx);
+                judge_platt(case, &ex, &pe, obs, shrunk);
             }
             FitOutcome::Error(e) => {
                 // PlattError::{LineSearchNotConverged, MaxIterReached} are documented outcomes of the
@@ -156,7 +174,7 @@ pub fn check(case: &Case, obs: &mut Obs) {
                 if e.contains("platt") {
                     obs.class("platt_calibration_err");
                 } else {
-                    obs.fail(sig("fit:unexpected-error"), format!("Pr fit returned Err({e})"));
+                    obs.fail(mk_sig(shrunk, "fit:unexpected-error"), format!("Pr fit returned Err({e})"));
                 }
             }
             FitOutcome::Panic(m) => {
@@ -166,15 +184,15 @@ pub fn check(case: &Case, obs: &mut Obs) {
                         format!("Pr fit with shrinking(true) panicked: {m}"),
                     );
                 } else {
-                    obs.fail(sig("panic:platt-fit-or-predict"), format!("panicked: {m}"));
+                    obs.fail(mk_sig(shrunk, "platt-panic:fit-or-predict"), format!("panicked: {m}"));
                 }
             }
         }
     }
 }
 
-fn judge_platt(case: &Case, ex: &Extract, pe: &run::PlattExtract, obs: &mut Obs, pfx: &str) {
-    let sig = |s: &str| format!("{pfx}{s}");
+fn judge_platt(case: &Case, ex: &Extract, pe: &run::PlattExtract, obs: &mut Obs, shrunk: bool) {
+    let sig = |s: &str| mk_sig(shrunk, s);
     // same dual problem, same arithmetic: the published solution must be identical
     let same = pe.alpha.len() == ex.alpha.len()
         && pe.alpha.iter().zip(&ex.alpha).all(|(a, b)| a.to_bits() == b.to_bits() || (a.is_nan() && b.is_nan()))
@@ -218,8 +236,8 @@ fn judge_platt(case: &Case, ex: &Extract, pe: &run::PlattExtract, obs: &mut Obs,
     }
 }
 
-fn judge(case: &Case, ex: &Extract, obs: &mut Obs, pfx: &str) {
-    let sig = |s: &str| format!("{pfx}{s}");
+fn judge(case: &Case, ex: &Extract, obs: &mut Obs, shrunk: bool) {
+    let sig = |s: &str| mk_sig(shrunk, s);
     let n = case.n();
     let m = case.fresh.len();
     let single = case.single;
@@ -328,6 +346,8 @@ fn judge(case: &Case, ex: &Extract, obs: &mut Obs, pfx: &str) {
         dec_abs.push(a);
         dropped.push(d);
     }
+    // kernel values below the smallest normal number of the model's float type are flushed / lose precision
+    let underflow = alpha.iter().map(|a| a.abs()).sum::<f64>() * if single { UNDERFLOW_F32 } else { UNDERFLOW_F64 };
     let mut ws_ok = true;
     let is_nu_linear = matches!(case.task, Task::NuSvc { .. }) && case.kernel == Kern::Linear;
     let mut unscaled_hits = 0usize;
@@ -335,7 +355,7 @@ fn judge(case: &Case, ex: &Extract, obs: &mut Obs, pfx: &str) {
     let mut first_bad: Option<(usize, f64, f64)> = None;
     for i in 0..n + m {
         // coefficients below the support-vector threshold may be dropped by weighted_sum
-        let tol = dec_rel * dec_abs[i] + 2.0 * dropped[i] + 1e-300;
+        let tol = dec_rel * dec_abs[i] + 2.0 * dropped[i] + underflow;
         if (ex.ws[i] - dec[i]).abs() <= tol {
             continue;
         }
@@ -345,7 +365,7 @@ fn judge(case: &Case, ex: &Extract, obs: &mut Obs, pfx: &str) {
         }
         // recognised defect: the pre-combined linear hyper-plane of nu-SVC is built from the
         // coefficients *before* they are divided by r, so weighted_sum = r * sum a_i <x_i, x>
-        let tol_r = 10.0 * dec_rel * nu_r * dec_abs[i] + 2.0 * nu_r.max(1.0) * dropped[i] + 1e-300;
+        let tol_r = 10.0 * dec_rel * nu_r * dec_abs[i] + 2.0 * nu_r.max(1.0) * dropped[i] + underflow * nu_r.max(1.0);
         if is_nu_linear && (ex.ws[i] - nu_r * dec[i]).abs() <= tol_r {
             unscaled_hits += 1;
         }
@@ -358,7 +378,8 @@ fn judge(case: &Case, ex: &Extract, obs: &mut Obs, pfx: &str) {
             linear_nu_unscaled = true;
             obs.class("nu_svc_linear_hyperplane_unscaled");
             obs.fail(
-                sig("nu-svc:linear:hyperplane-not-divided-by-r"),
+                // independent of shrinking: the exact wrong value is recognised
+                "nu-svc:linear:hyperplane-not-divided-by-r",
                 format!(
                     "nu-SVC, linear kernel: weighted_sum(point {i}) = {w} but sum a_i <x_i,x> = {d}; the ratio is r = {nu_r} \
                      for all {mismatches} deviating points: the hyper-plane was assembled before alpha and rho were divided by r, \
@@ -391,9 +412,9 @@ fn judge(case: &Case, ex: &Extract, obs: &mut Obs, pfx: &str) {
                     // (b) label = sign of the harness' decision value unless that is within tolerance of 0
                     if ws_ok {
                         let f = dec[i] - rho;
-                        let tol = dec_rel * (dec_abs[i] + rho.abs()) + 2.0 * dropped[i];
+                        let tol = dec_rel * (dec_abs[i] + rho.abs()) + 2.0 * dropped[i] + underflow;
                         if f.abs() > tol || f.is_infinite() {
-                            obs.ensure(lab[i] == (f >= 0.0), &sig("predict:label-vs-dual-sum"), || {
+                            obs.ensure(lab[i] == (f >= 0.0), &sig("decision:label-vs-dual-sum"), || {
                                 format!("point {i}: predict = {}, sum a_j K - rho = {f}", lab[i])
                             });
                         }
@@ -415,8 +436,8 @@ fn judge(case: &Case, ex: &Extract, obs: &mut Obs, pfx: &str) {
                 if ws_ok {
                     for i in 0..n + m {
                         let f = dec[i] - rho;
-                        let tol = dec_rel * (dec_abs[i] + rho.abs()) + 2.0 * dropped[i];
-                        obs.ensure((val[i] - f).abs() <= tol, &sig("predict:value-vs-dual-sum"), || {
+                        let tol = dec_rel * (dec_abs[i] + rho.abs()) + 2.0 * dropped[i] + underflow;
+                        obs.ensure((val[i] - f).abs() <= tol, &sig("decision:value-vs-dual-sum"), || {
                             format!("point {i}: predict = {}, sum a_j K - rho = {f}", val[i])
                         });
                     }
